@@ -22,6 +22,7 @@ type lcDesc struct {
 	Late      bool     `json:"late"`      // a client that dials only after a Shutdown has returned
 	Timeout   bool     `json:"timeout"`   // serve with an idle timeout (C15)
 	Fires     int      `json:"fires"`     // accept-deadline expiries available to the timer thread
+	Via       string   `json:"via"`       // "dolisten": install a listener + DoListen; "listen": Listen(address) with the network listen hooked onto the controlled listener
 }
 
 type lcState struct {
@@ -48,6 +49,21 @@ type lcState struct {
 	fireOpen  []string // connection phases at each expiry
 	fireRound []int
 	expObs    []string
+	tos       []*toRec
+	hooked    []bool
+	nextBind  int
+	pendingTO *toRec
+}
+
+// toRec records one accept time-out as seen by the serving loop: the state when Accept returned the
+// time-out error and the loop's next listener operation (re-arm = keeps serving, close = stops).
+type toRec struct {
+	round      int
+	handlers   int // handler threads alive when Accept returned the time-out
+	queued     int
+	nextOp     string
+	openAtNext []string
+	shutSeen   bool // a Shutdown had been issued before the loop acted: the loop may stop for that reason
 }
 
 var connScripts = map[string]struct {
@@ -86,11 +102,67 @@ func lcBody(d lcDesc) func() {
 		st := &lcState{d: d, lateDial: -1}
 		w.LC = st
 		for r := 0; r < d.Rounds; r++ {
-			st.Ls = append(st.Ls, vnet.NewListener(fmt.Sprintf("L%d", r)))
+			l := vnet.NewListener(fmt.Sprintf("L%d", r))
+			r := r
+			l.Hook = func(ev string) {
+				if vsched.Cur().Name != "M" {
+					return
+				}
+				if p := st.pendingTO; p != nil {
+					p.nextOp = ev
+					for _, t := range st.shutStart {
+						if t != 0 {
+							p.shutSeen = true
+						}
+					}
+					for _, c := range l.Accepted {
+						if !c.IsClosed() {
+							p.openAtNext = append(p.openAtNext, c.Name)
+						}
+					}
+					st.pendingTO = nil
+				}
+				if ev == "accept-timeout" {
+					p := &toRec{round: r, handlers: vsched.AliveNamed("service.go:"), queued: l.Queued()}
+					st.tos = append(st.tos, p)
+					st.pendingTO = p
+				}
+			}
+			st.Ls = append(st.Ls, l)
 			st.bound = append(st.bound, 0)
 			st.ret = append(st.ret, 0)
 			st.retVal = append(st.retVal, "")
 			st.retPeek = append(st.retPeek, "")
+			st.hooked = append(st.hooked, false)
+		}
+		vsched.ListenHook = func(network, address string) (interface{}, error) {
+			if network != "unix" || address != "@vx" {
+				return nil, fmt.Errorf("vnet: cannot listen on %s:%s", network, address)
+			}
+			st.hooked[st.nextBind] = true
+			return st.Ls[st.nextBind], nil
+		}
+		// stamp records the moment a Listen-bound round is first seen bound (its listener installed)
+		stamp := func() {
+			if d.Via != "listen" {
+				return
+			}
+			_, cur, _, _, _ := w.S.VerifPeek()
+			for r := 0; r < d.Rounds; r++ {
+				if st.bound[r] == 0 && st.hooked[r] && cur == net.Listener(st.Ls[r]) {
+					st.bound[r] = w.ev("bound %d", r)
+				}
+			}
+		}
+		isBound := func(r int) bool {
+			if st.bound[r] != 0 {
+				return true
+			}
+			if d.Via == "listen" && st.hooked[r] {
+				_, cur, _, _, _ := w.S.VerifPeek()
+				return cur == net.Listener(st.Ls[r])
+			}
+			return false
 		}
 		var timeout time.Duration
 		if d.Timeout {
@@ -98,7 +170,7 @@ func lcBody(d lcDesc) func() {
 		}
 		curRound := func() int {
 			for r := d.Rounds - 1; r >= 0; r-- {
-				if st.bound[r] != 0 && st.ret[r] == 0 {
+				if isBound(r) && st.ret[r] == 0 {
 					return r
 				}
 			}
@@ -106,9 +178,22 @@ func lcBody(d lcDesc) func() {
 		}
 		vsched.GoDaemon("M", func() {
 			for r := 0; r < d.Rounds; r++ {
-				w.S.VerifSetListener(st.Ls[r])
-				st.bound[r] = w.ev("bound %d", r)
-				err := w.S.DoListen(w.Ctx, timeout)
+				var err error
+				if d.Via == "listen" {
+					st.nextBind = r
+					err = w.S.Listen(w.Ctx, "unix:@vx", timeout)
+					if st.bound[r] == 0 && st.hooked[r] {
+						st.bound[r] = w.ev("bound %d (seen at return)", r)
+					}
+				} else {
+					w.S.VerifSetListener(st.Ls[r])
+					st.bound[r] = w.ev("bound %d", r)
+					err = w.S.DoListen(w.Ctx, timeout)
+				}
+				if p := st.pendingTO; p != nil {
+					p.nextOp = "return"
+					st.pendingTO = nil
+				}
 				ev := "nil"
 				if err != nil {
 					ev = err.Error()
@@ -136,8 +221,9 @@ func lcBody(d lcDesc) func() {
 			vsched.GoDaemon(fmt.Sprintf("S%d", k), func() {
 				if k == 1 && d.Rounds == 2 {
 					// the second Shutdown of a two-round scenario is aimed at round 1
-					vsched.Yield("wait-round1", "S", func() bool { return st.bound[1] != 0 })
+					vsched.Yield("wait-round1", "S", func() bool { return isBound(1) })
 				}
+				stamp()
 				r := curRound()
 				st.shutRound[k] = r
 				if r >= 0 && st.Ls[r].Blocked() {
@@ -155,11 +241,17 @@ func lcBody(d lcDesc) func() {
 		for i, cs := range d.Conns {
 			sc := connScripts[cs]
 			name := fmt.Sprintf("c%d", i)
-			vsched.GoDaemon(name, func() { w.rawClientOn(st.Ls[0], name, sc.chunks, sc.end) })
+			vsched.GoDaemon(name, func() {
+				if d.Via == "listen" {
+					// a client cannot reach an address before the service has bound it
+					vsched.Yield("wait-bound", name, func() bool { return st.hooked[0] })
+				}
+				w.rawClientOn(st.Ls[0], name, sc.chunks, sc.end)
+			})
 		}
 		if d.Rounds == 2 {
 			vsched.GoDaemon("r1client", func() {
-				vsched.Yield("wait-round1", "c", func() bool { return st.bound[1] != 0 })
+				vsched.Yield("wait-round1", "c", func() bool { return isBound(1) })
 				sc := connScripts["callhalf"]
 				w.rawClientOn(st.Ls[1], "r1", sc.chunks, sc.end)
 			})
@@ -175,6 +267,7 @@ func lcBody(d lcDesc) func() {
 			vsched.GoDaemon("B", func() {
 				// issue the second bind only once the service is serving (parked in Accept)
 				vsched.Yield("wait-serving", "B", func() bool { r := curRound(); return r >= 0 && st.Ls[r].Waiting > 0 })
+				stamp()
 				st.bPre = peek(w.S, st.Ls)
 				st.bStart = w.ev("b-start %s", d.B)
 				var err error
@@ -285,6 +378,9 @@ func lcObs(x *vsched.Exec) string {
 		if c, ok := w.Clients[n]; ok {
 			fmt.Fprintf(&sb, "%s=%q ", n, c.Received())
 		}
+	}
+	for _, p := range st.tos {
+		fmt.Fprintf(&sb, "|to{r%d h%d q%d %s %v}", p.round, p.handlers, p.queued, p.nextOp, p.openAtNext)
 	}
 	fmt.Fprintf(&sb, "|inv=%v|parked=%v|panic=%v", w.Inv, x.Parked, x.Panic != "")
 	return sb.String()
@@ -437,6 +533,7 @@ func scenariosC14(tier string) []Scen {
 		// reuse: two rounds
 		descs = append(descs, lcDesc{Conns: cs, Shutdowns: 2, Rounds: 2})
 	}
+	descs = withVia(descs)
 	var out []Scen
 	for _, d := range descs {
 		d := d
@@ -448,13 +545,157 @@ func scenariosC14(tier string) []Scen {
 			n++
 		}
 		bound := 3
-		if n > 3 || d.Rounds == 2 {
+		if n > 3 || d.Rounds == 2 || len(d.Conns) > 1 {
 			bound = 2
 		}
 		if tier != "quick" {
 			bound++
 		}
 		out = append(out, Scen{Desc: d, Bound: bound, Body: lcBody(d), Check: lcCheck14, Obs: lcObs})
+	}
+	return out
+}
+
+// lcCheck15 is the C15 oracle.
+func lcCheck15(x *vsched.Exec) (string, string) {
+	w := worldOf(x)
+	if x.Panic != "" {
+		return "panic: " + x.Panic, "panic"
+	}
+	if x.HitHorizon {
+		return "", ""
+	}
+	st := w.LC.(*lcState)
+	d := st.d
+	for r := 0; r < d.Rounds; r++ {
+		l := st.Ls[r]
+		if !d.Timeout {
+			if l.Arms > 0 {
+				return "serving without a timeout armed an accept deadline", "symptom=deadline-armed-without-timeout"
+			}
+			if st.ret[r] != 0 && st.retVal[r] == "TIMEOUT" {
+				return "serving without a timeout stopped with the timeout error", "symptom=timeout-without-timeout"
+			}
+			applicable := false
+			for k := range st.shutStart {
+				if st.shutStart[k] != 0 {
+					applicable = true
+				}
+			}
+			if st.bound[r] != 0 && st.ret[r] != 0 && !applicable {
+				return fmt.Sprintf("serving without a timeout and without Shutdown stopped by itself (returned %q)", st.retVal[r]), "symptom=stopped-by-itself"
+			}
+			continue
+		}
+		if l.Unarmed > 0 {
+			return fmt.Sprintf("round %d: %d Accept call(s) were not preceded by a fresh SetDeadline", r, l.Unarmed), "symptom=accept-without-fresh-deadline"
+		}
+	}
+	stoppedByTimeout := map[int]bool{}
+	for _, p := range st.tos {
+		if p.nextOp == "close" || p.nextOp == "return" {
+			stoppedByTimeout[p.round] = true
+		}
+	}
+	for i, p := range st.tos {
+		if p.nextOp == "" || p.shutSeen {
+			continue // the loop has not acted on this expiry (execution ended first), or a Shutdown intervened
+		}
+		if len(p.openAtNext) > 0 && p.nextOp != "setdl" {
+			return fmt.Sprintf("accept time-out %d (round %d): connection(s) %v were open from before the expiry until the loop acted, yet the loop did not keep serving (next listener op: %s)", i, p.round, p.openAtNext, p.nextOp),
+				"symptom=timeout-stopped-a-non-idle-service"
+		}
+		if p.handlers == 0 && p.queued == 0 && p.nextOp != "close" && p.nextOp != "return" {
+			return fmt.Sprintf("accept time-out %d (round %d): no connection was open or pending and every handler had finished, yet the loop kept serving (next listener op: %s)", i, p.round, p.nextOp),
+				"symptom=idle-timeout-did-not-stop"
+		}
+	}
+	for r := 0; r < d.Rounds; r++ {
+		if st.ret[r] == 0 {
+			if stoppedByTimeout[r] {
+				return fmt.Sprintf("round %d: the loop stopped on an idle time-out but the serving call never returned (parked: %v)", r, x.Parked), "symptom=timeout-return-hangs"
+			}
+			continue
+		}
+		if stoppedByTimeout[r] && d.Shutdowns == 0 {
+			if st.retVal[r] != "TIMEOUT" {
+				return fmt.Sprintf("round %d ended by idle time-out but returned %q instead of ServiceTimeoutError", r, st.retVal[r]), "symptom=wrong-timeout-error"
+			}
+		}
+		if st.retVal[r] == "TIMEOUT" {
+			if !stoppedByTimeout[r] {
+				return fmt.Sprintf("round %d returned ServiceTimeoutError although no accept time-out ended it", r), "symptom=spurious-timeout-error"
+			}
+			if !st.Ls[r].IsClosed() {
+				return fmt.Sprintf("round %d ended by idle time-out but the listener was not closed: clients still connect to a service that is gone and the address cannot be served again", r),
+					"symptom=listener-not-closed-after-timeout"
+			}
+			want := "running=false listener=nil count=0"
+			if !strings.HasPrefix(st.retPeek[r], want) || strings.Contains(st.retPeek[r], "OPENCONN") {
+				return fmt.Sprintf("round %d: state after time-out return is %q, want %q", r, st.retPeek[r], want), "symptom=unclean-state-after-timeout"
+			}
+		}
+	}
+	// after a time-out return the same object serves again: round 1's client is answered if it was dispatched
+	if d.Rounds == 2 && st.bound[1] != 0 && st.ret[1] != 0 {
+		if c, ok := w.Clients["r1"]; ok {
+			fr, _ := frames(c.Received())
+			if len(w.Inv["r1"]) > 0 && len(fr) == 0 && !strings.Contains(strings.Join(w.Inv["r1"], " "), "R:err") {
+				return "round 1 (after a time-out return): call dispatched but no reply reached the client", "symptom=round1-no-reply"
+			}
+		}
+	}
+	return "", ""
+}
+
+func scenariosC15(tier string) []Scen {
+	var descs []lcDesc
+	kinds := []string{"callhalf", "call", "idleclose", "abortmid", "herr", "two"}
+	var connSets [][]string
+	connSets = append(connSets, nil)
+	for _, a := range kinds {
+		connSets = append(connSets, []string{a})
+	}
+	for i, a := range kinds {
+		for _, b := range kinds[i:] {
+			connSets = append(connSets, []string{a, b})
+		}
+	}
+	for _, cs := range connSets {
+		for _, fires := range []int{1, 2, 3} {
+			descs = append(descs, lcDesc{Conns: cs, Rounds: 1, Timeout: true, Fires: fires})
+		}
+		descs = append(descs, lcDesc{Conns: cs, Rounds: 2, Timeout: true, Fires: 2})
+		descs = append(descs, lcDesc{Conns: cs, Rounds: 1, Timeout: true, Fires: 2, Shutdowns: 1})
+		// no timeout: never stops by itself, never arms a deadline
+		descs = append(descs, lcDesc{Conns: cs, Rounds: 1, Timeout: false, Fires: 1})
+		descs = append(descs, lcDesc{Conns: cs, Rounds: 1, Timeout: false, Fires: 1, Shutdowns: 1})
+	}
+	descs = withVia(descs)
+	var out []Scen
+	for _, d := range descs {
+		d := d
+		n := len(d.Conns) + d.Shutdowns + d.Fires
+		bound := 3
+		if n > 3 || d.Rounds == 2 || len(d.Conns) > 1 {
+			bound = 2
+		}
+		if tier != "quick" {
+			bound++
+		}
+		out = append(out, Scen{Desc: d, Bound: bound, Body: lcBody(d), Check: lcCheck15, Obs: lcObs})
+	}
+	return out
+}
+
+// withVia runs every scenario through both serving entry points (their accept loops are separate code).
+func withVia(in []lcDesc) []lcDesc {
+	var out []lcDesc
+	for _, d := range in {
+		for _, v := range []string{"dolisten", "listen"} {
+			d.Via = v
+			out = append(out, d)
+		}
 	}
 	return out
 }
